@@ -261,6 +261,36 @@ def nwchem_whole(ctx, b, label):
         ctx.compare('nw_read_all', shape(r), norm_read(m), dict(replay, variant=variant))
 
 
+def g94_whole(ctx, b, label):
+    """the whole Gaussian94 file, electron blocks and ECP blocks (coq/Model/G94Ecp.v, Proofs/G94EcpSpec.v)"""
+    from basis_set_exchange import writers, readers, manip, sort
+    if ctx.model is None or not any('ecp_potentials' in el for el in b['elements'].values()):
+        return
+    w = impl.call(writers.write_formatted_basis_str, copy.deepcopy(b), 'gaussian94')
+    pb = impl.call(lambda x: sort.sort_basis(manip.uncontract_spdf(manip.uncontract_general(x, True), 1, False), False), copy.deepcopy(b))
+    if w[0] != 'ok' or pb[0] != 'ok' or len(w[1]) > 200000:
+        return
+    els = [[int(z), el['electron_shells']] for z, el in pb[1]['elements'].items() if 'electron_shells' in el]
+    ecps = [[int(z), el['ecp_electrons'], el['ecp_potentials']] for z, el in pb[1]['elements'].items() if 'ecp_potentials' in el]
+    replay = {'kind': 'g94-whole', 'label': label, 'input': b if len(str(b)) < 15000 else None}
+    ctx.case((label, 'g94-whole'), True, 'g94-whole')
+    ctx.compare('g94_write_all', ('ok', w[1]), ctx.model.call('g94_write_all', els, ecps), replay)
+
+    def shape(r):
+        if r[0] != 'ok':
+            return ('error', 'any')
+        return ('ok', [[int(z), {'electron_shells': el.get('electron_shells'), 'ecp_electrons': el.get('ecp_electrons'),
+                                 'ecp_potentials': el.get('ecp_potentials')}] for z, el in r[1]['elements'].items()])
+    for variant, lines in (('as-written', w[1].splitlines()), ('damaged', damage_lines(w[1].splitlines(), random.Random(len(w[1]) + 2)))):
+        r = impl.call(readers.read_formatted_basis_str, '\n'.join(lines) + '\n', 'gaussian94')
+        m = ctx.model.call('g94_read_all', lines)
+        if m[0] == 'error' and 'NotImpl' in str(m[1]):
+            ctx.dist['g94-whole-read:outside-modelled-fragment'] += 1
+            continue
+        ctx.case((label, 'g94-whole-read', variant), True, 'g94-whole-read:' + variant)
+        ctx.compare('g94_read_all', shape(r), norm_read(m), dict(replay, variant=variant))
+
+
 def norm_read(r):
     if r[0] != 'ok':
         return ('error', 'any')      # the reader's error classes (RuntimeError / KeyError / IndexError ...) are not part of the property
@@ -344,6 +374,7 @@ def work_store(ctx, item):
     g94_layout(ctx, b, label)
     tm_layout(ctx, b, label)
     nwchem_whole(ctx, b, label)
+    g94_whole(ctx, b, label)
     if rng.random() < (1.0 if ctx.thorough() else 0.4):
         file_and_convert(ctx, b, label, rng)
     ctx.sample({'store': label, 'formats': rw_formats()})
@@ -381,6 +412,7 @@ def work_generated(ctx, seed):
     g94_layout(ctx, b, 'gen:%d:%s' % (seed, kind))
     tm_layout(ctx, b, 'gen:%d:%s' % (seed, kind))
     nwchem_whole(ctx, b, 'gen:%d:%s' % (seed, kind))
+    g94_whole(ctx, b, 'gen:%d:%s' % (seed, kind))
     if seed % 5 == 0 and kind == 'plain':
         file_and_convert(ctx, b, 'gen:%d' % seed, rng)
 
